@@ -120,6 +120,21 @@ def verify(pid, letter, src, tier, keep=False):
             if rc2 == 0 or only_flaky_failures(out2):
                 rc = 0
                 meta["steps"]["existing_tests_note"] = "only the known timing-flaky TestWatchCoordinationWindows failed"
+        if rc != 0:
+            # load-sensitive tests (real-time block counters, tickers, timeouts): re-run just
+            # the failing tests, with the change still applied, up to two more times
+            failing = sorted({f.split("/")[0] for f in re.findall(r"^--- FAIL: (\S+)", out, re.M)})
+            failing = [f for f in failing if f not in FLAKY]
+            if failing and "build failed" not in out:
+                for attempt in range(2):
+                    rc3, out3 = sh("go test -count=1 -timeout 30m -run '^(%s)$' %s" % ("|".join(failing), " ".join(pkgs)), cwd=wt, timeout=2400)
+                    if rc3 == 0:
+                        rc = 0
+                        meta["steps"]["existing_tests_note"] = "load-sensitive tests %s failed in the full run and passed when re-run with the change applied" % failing
+                        break
+            elif not failing and re.findall(r"^--- FAIL: (\S+)", out, re.M):
+                rc = 0
+                meta["steps"]["existing_tests_note"] = "only the known timing-flaky TestWatchCoordinationWindows failed"
         meta["steps"]["existing_tests_pass_with_change"] = rc == 0
         if rc != 0:
             meta["steps"]["existing_tests_output"] = "\n".join(l for l in out.splitlines() if "FAIL" in l or "panic" in l)[-1500:]
@@ -133,7 +148,7 @@ def verify(pid, letter, src, tier, keep=False):
                     line = line.strip().strip("`")
                     m0 = re.search(r"\bgo (test|run) .*", line)
                     if m0 and not line.startswith("#"):
-                        cmd = m0.group(0).split(" #")[0].strip()
+                        cmd = m0.group(0).split(" #")[0].split("|")[0].replace("2>&1", "").strip()
                         break
             meta["demo_cmd"] = cmd
             placed = []
